@@ -38,6 +38,13 @@ def parse_via(channel, raw):
             parse_qsl(raw, setitem=d.__setitem__)
             return res_of(d), ''
         app = parse_via.app
+        if channel == 'query-after-rewrite':
+            # the query is read, the application rewrites QUERY_STRING through the request object, the query is read again
+            env = base_environ(QUERY_STRING=parse_via.before)
+            app.request.__init__(env)
+            _first = res_of(app.request.query), len(app.request.params)
+            app.request['QUERY_STRING'] = raw
+            return res_of(app.request.query), ''
         if channel == 'query':
             env = base_environ(QUERY_STRING=raw)
             app.request.__init__(env)
@@ -46,6 +53,8 @@ def parse_via(channel, raw):
         env = base_environ(REQUEST_METHOD='POST', CONTENT_TYPE='application/x-www-form-urlencoded', CONTENT_LENGTH=str(len(body)))
         env['wsgi.input'] = io.BytesIO(body)
         app.request.__init__(env)
+        if channel == 'query-after-rewrite':
+            raise AssertionError('handled above')
         if channel == 'forms-after-body':
             # a signature check or a logging hook has already read (part of) the body
             b = app.request.body
@@ -100,15 +109,31 @@ def run(chk):
         keys = [''.join(chr(rng.choice(CPS)) for _ in range(rng.randint(1, 4))) for _ in range(max(1, n // 2 + 1))]
         pairs = [(rng.choice(keys), ''.join(chr(rng.choice(CPS)) for _ in range(rng.choice([0, 1, 2, 5])))) for _ in range(n)]
         raw = urlencode(pairs)
-        ch = rng.choice(['qsl', 'query', 'forms', 'params', 'forms-after-body'])
+        ch = rng.choice(['qsl', 'query', 'forms', 'params', 'forms-after-body', 'query-after-rewrite'])
         if ch in ('forms', 'params', 'forms-after-body') and not raw:
             ch = 'query'
         parse_via.peek = rng.choice([-1, 0, 1, 7])
+        parse_via.before = rng.choice(['old=1&a=2', 'x', '', 'a=b&a=c'])
         res, exc = parse_via(ch, raw)
         traces.append({'raw': s2l(raw), 'pairs': [[s2l(k), s2l(v)] for k, v in pairs], 'res': res, 'exc': exc, 'exact': True, 'ch': ch})
         chk.count(1, ('pairs', raw, ch))
     chk.sample({'kind': 'pairs', 'submitted': [[k, v] for k, v in pairs][:4], 'raw': raw[:80], 'channel': ch})
     chk.sample({'kind': 'raw', 'raw': 'a=1&&b&=c&%', 'result': parse_via('qsl', 'a=1&&b&=c&%')[0]})
+    # the same field name in the query string and in the form body: never an exception (which value wins is not judged)
+    for _ in range(300 if thorough else 60):
+        k = ''.join(chr(rng.choice(CPS)) for _ in range(rng.randint(1, 3)))
+        q = [(k, 'from-query'), ('only-q', '1')]
+        f = [(k, 'from-body'), ('only-f', '2')] + ([(k, 'again')] if rng.random() < 0.3 else [])
+        body = urlencode(f).encode('latin1')
+        env = base_environ(REQUEST_METHOD='POST', CONTENT_TYPE='application/x-www-form-urlencoded', CONTENT_LENGTH=str(len(body)), QUERY_STRING=urlencode(q))
+        env['wsgi.input'] = io.BytesIO(body)
+        try:
+            parse_via.app.request.__init__(env)
+            res, exc = res_of(parse_via.app.request.params), ''
+        except Exception as e:   # noqa
+            res, exc = [], type(e).__name__
+        traces.append({'raw': s2l(urlencode(q + f)), 'pairs': [], 'res': res, 'exc': exc, 'exact': False, 'ch': 'params-overlap'})
+        chk.count(1, ('overlap', urlencode(q + f)))
     # params = query + forms merged (disjoint keys)
     for _ in range(300 if thorough else 60):
         q = [('q' + chr(rng.choice(CPS)), chr(rng.choice(CPS))) for _ in range(2)]
